@@ -498,14 +498,23 @@ fn handler_level(ctx: &Ctx) {
 /// Handler level with a real time limit: a file is served (and cached), the entry goes stale, the file is rewritten with
 /// different bytes *of the same length*, and is then requested twice: both answers must be the new bytes (nothing older
 /// than the time limit, and the entry that replaces the stale one must hold what was just read).
-pub fn handler_expiry(via_directory: bool, same_length: bool, tag: u64) -> Vec<Fail> {
+pub fn handler_expiry(via_directory: bool, same_length: bool, tag: u64, size_class: u8) -> Vec<Fail> {
     use humphrey_server::server::server::AppState;
     let tmp = crate::engine::TmpDir::new("c16x");
     let dir = tmp.0.clone();
     let path = dir.join("f.txt");
     let state = Arc::new(AppState::from(quiet_config(1 << 16, 1)));
-    let v1 = format!("version-1-{:06}", tag % 1_000_000).into_bytes();
-    let v2 = if same_length { format!("version-2-{:06}", tag % 1_000_000).into_bytes() } else { format!("version-2-{:06}-longer", tag % 1_000_000).into_bytes() };
+    let mut v1 = format!("version-1-{:06}", tag % 1_000_000).into_bytes();
+    let mut v2 = if same_length { format!("version-2-{:06}", tag % 1_000_000).into_bytes() } else { format!("version-2-{:06}-longer", tag % 1_000_000).into_bytes() };
+    // size classes: 0 = a few bytes; 1 = just over half the cache's size limit (the stale and the fresh version do not fit
+    // together); 2 = the fresh version is exactly as large as the limit
+    let limit = 1usize << 16;
+    let target = match size_class { 1 => limit / 2 + 1, 2 => limit, _ => 0 };
+    if target > 0 {
+        let pad = |v: &mut Vec<u8>, n: usize| { let k = v.len(); v.extend((k..n).map(|i| b'a' + (i % 23) as u8)); };
+        pad(&mut v2, target);
+        pad(&mut v1, if same_length { target } else { target - 7 });
+    }
     std::fs::write(&path, &v1).unwrap();
     let call = |n: usize| -> Result<Vec<u8>, String> {
         let r = if via_directory {
@@ -551,7 +560,7 @@ pub fn handler_expiry(via_directory: bool, same_length: bool, tag: u64) -> Vec<F
 }
 
 fn handler_expiry_all(ctx: &Ctx) {
-    let jobs: Vec<(bool, bool)> = vec![(false, true), (true, true), (false, false), (true, false)];
+    let jobs: Vec<(bool, bool, u8)> = vec![(false, true, 0), (true, true, 0), (false, false, 0), (true, false, 0), (false, true, 1), (true, false, 1), (true, true, 2), (false, false, 2)];
     let found: std::sync::Mutex<Vec<(Fail, J)>> = std::sync::Mutex::new(Vec::new());
     let next = std::sync::atomic::AtomicUsize::new(0);
     crate::engine::shards(jobs.len(), |_| loop {
@@ -559,10 +568,10 @@ fn handler_expiry_all(ctx: &Ctx) {
         if i >= jobs.len() {
             break;
         }
-        let (d, same) = jobs[i];
-        ctx.case(hash_of(&("handler-expiry", d, same)), true, &["handler:stale-entry-then-rewrite"]);
-        for f in handler_expiry(d, same, pt::mix(ctx.seed, 1695 + i as u64)) {
-            found.lock().unwrap().push((f, json!({"via_directory": d, "same_length": same})));
+        let (d, same, size_class) = jobs[i];
+        ctx.case(hash_of(&("handler-expiry", d, same, size_class)), true, &["handler:stale-entry-then-rewrite", ["handler:stale-entry:small-file", "handler:stale-entry:file-over-half-the-limit", "handler:stale-entry:file-as-large-as-the-limit"][size_class as usize]]);
+        for f in handler_expiry(d, same, pt::mix(ctx.seed, 1695 + i as u64), size_class) {
+            found.lock().unwrap().push((f, json!({"via_directory": d, "same_length": same, "size_class": size_class})));
         }
     });
     ctx.sample("handler:stale-entry-then-rewrite", || json!({"scenario": "serve + cache, wait past the 1 s time limit, rewrite the file with different bytes of the same length, request twice"}));
@@ -600,7 +609,7 @@ pub fn replay(_ctx: &Ctx, kind: &str, case: &J) -> Vec<Fail> {
             Ok(c) => check_seq(&c, &mut Stats { evictions: false, overwrites: false }),
             Err(e) => vec![Fail::new("harness", format!("bad replay case: {}", e))],
         },
-        "handler-expiry" => handler_expiry(case["via_directory"].as_bool().unwrap_or(false), case["same_length"].as_bool().unwrap_or(true), 1),
+        "handler-expiry" => handler_expiry(case["via_directory"].as_bool().unwrap_or(false), case["same_length"].as_bool().unwrap_or(true), 1, case["size_class"].as_u64().unwrap_or(0) as u8),
         _ => vec![],
     }
 }
